@@ -80,6 +80,12 @@ def run (args : List String) : Option String :=
   | ["allops"] =>
     let names := (opTable.map (·.name)) ++ convTable ++ eqTable
     some (",".intercalate (names.toArray.qsort (· < ·)).toList)
+  | ["callform", name, form] => do
+    let f ← (if form = "positional" then some CallForm.positional
+             else if form = "operator" then some CallForm.operator
+             else if form = "keyword" then some CallForm.keyword
+             else if form = "allkeyword" then some CallForm.allKeyword else none)
+    pure (if callFormAccepted name f then "accepted" else "ERR:TypeError")
   | ["convops"] => some (",".intercalate convTable)
   | ["eqops"] => some (",".intercalate eqTable)
   | ["tageq", a, b] => do
